@@ -13,7 +13,7 @@
    What is NOT proved here: that PhyClone's concrete q / om instantiate the premises (positivity of every weight,
    proposal mass one: C08; symmetric ESS criterion) - those are checked on the implementation by the exact
    transition matrices of harness/pv/props/C01.py. *)
-From PV Require Import Model.Isir Proofs.IsirProofs Model.Csmc Proofs.CsmcSupport Proofs.CsmcInvariant Proofs.AuxVar Proofs.CsmcTarget.
+From PV Require Import Model.Isir Proofs.IsirProofs Model.Csmc Proofs.CsmcSupport Proofs.CsmcInvariant Proofs.AuxVar Proofs.CsmcTarget Proofs.PgAssembly.
 
 Theorem C01_csmc_invariant :
   forall (A : Type) (q : list A -> dist A) (om : list A -> Qc) (rs : @swarm A -> bool) (n : nat),
@@ -38,6 +38,43 @@ Theorem C01_csmc_leaves_final_target_invariant :
       = sumq (map (fun path => g (rev path) * f (rev path)) (conts supp (S (count_upd ops)) [])).
 Proof. exact (@csmc_final_target_invariant). Qed.
 Print Assumptions C01_csmc_leaves_final_target_invariant.
+
+(* THE UPDATE, assembled: data order drawn from its conditional law, conditional SMC along it, tree read off the
+   selected path.  Premises: reachable complete paths = trees compatible with the order (C08 support + C09), final
+   target of a path = gamma(tree) * order density (C08_weights_telescope + last-step correction), the order densities
+   sum to one for every tree (C09: density = 1 / number of compatible orders). *)
+Theorem C01_pg_update_invariant :
+  forall (Tree Sig A : Type) (TS : list Tree) (gam : Tree -> Qc) (SIG : list Sig) (cden : Sig -> Tree -> Qc)
+         (supp : Sig -> list A -> list A) (qp : Sig -> list A -> A -> Qc) (g : Sig -> list A -> Qc)
+         (dec : Sig -> list A -> Tree) (enc : Sig -> Tree -> list A) (rs : @swarm A -> bool) (n : nat) (ops : list op),
+    (forall sg p a, 0 < qp sg p a) -> (forall sg p, 0 < g sg p) ->
+    (forall sg p, sumq (map (qp sg p) (supp sg p)) = 1) ->
+    (forall m s, rs (bring m s) = rs s) ->
+    (forall t, In t TS -> sumq (map (fun sg => cden sg t) SIG) = 1) ->
+    (forall sg, In sg SIG ->
+       Permutation.Permutation (map (fun path => dec sg (rev path)) (paths supp ops sg)) (filter (compatb cden sg) TS)) ->
+    (forall sg path, In sg SIG -> In path (paths supp ops sg) -> enc sg (dec sg (rev path)) = path) ->
+    (forall sg path, In sg SIG -> In path (paths supp ops sg) ->
+       g sg (rev path) = gam (dec sg (rev path)) * cden sg (dec sg (rev path))) ->
+    invariant (wlist gam TS) (pg_update SIG cden supp qp g dec enc rs n ops).
+Proof. exact (@pg_update_invariant). Qed.
+Print Assumptions C01_pg_update_invariant.
+
+(* the premises of C01_pg_update_invariant are satisfiable: two binary steps, a non-uniform target on four states *)
+Example C01_pg_update_premises_satisfiable :
+  invariant (wlist ex_gam ex_TS)
+    (pg_update [tt] (fun _ _ => 1) (fun _ _ => [true; false]) (fun _ _ _ => Proposals.half) (fun _ p => ex_gam (ex_dec p))
+               (fun _ => ex_dec) (fun _ => ex_enc) (fun _ => true) 2 [Res; Upd]).
+Proof. exact ex_invariant. Qed.
+Print Assumptions C01_pg_update_premises_satisfiable.
+
+(* no step of the conditional sampler can lose mass *)
+Theorem C01_pg_kernel_total_mass :
+  forall (A : Type) (q : list A -> dist A) (om : list A -> Qc) (rs : @swarm A -> bool) (n : nat),
+    (forall p, 0 < om p) -> (forall p, mass (q p) = 1) ->
+    forall ops path, length path = S (count_upd ops) -> mass (pg_kernel q om rs n ops path) = 1.
+Proof. intros A q om rs n Ho Hq. exact (@pg_kernel_mass A q om rs n Ho Hq). Qed.
+Print Assumptions C01_pg_kernel_total_mass.
 
 Theorem C01_aux_variable_invariant :
   forall (S Sig : Type) (pi : dist S) (sigs : list Sig) (cd : Sig -> S -> Qc) (K : Sig -> S -> dist S),
